@@ -31,8 +31,8 @@ RULES = [
     ('astype no copy', re.compile(r'\.astype\(([^()]+)\)'), r'.astype(\1, copy=False)'),
     ('x = x op y -> x op= y', re.compile(r'^(\s*)([A-Za-z_]\w*) = \2 ([-+*/]) (.+)$'), r'\1\2 \3= \4'),
     ('x = -x -> in-place negate', re.compile(r'^(\s*)([A-Za-z_]\w*) = ?- ?\2\s*$'), r'\1\2 *= -1'),
-    ('getvector copy dropped', re.compile(r'\b(?:base\.|argcheck\.)?getvector\(([A-Za-z_]\w*)((?:, [^(),]+)?)\)'),
-     r'(\1 if isinstance(\1, np.ndarray) and \1.ndim == 1 and \1.dtype == np.float64 else base.getvector(\1\2))'),
+    ('getvector copy dropped', re.compile(r'\b((?:base\.|argcheck\.)?)getvector\(([A-Za-z_]\w*)((?:, [^(),]+)?)\)'),
+     r'(\2 if isinstance(\2, np.ndarray) and \2.ndim == 1 and \2.dtype == np.float64 else \1getvector(\2\3))'),
     ('return x op y -> in place', re.compile(r'^(\s*)return ([A-Za-z_]\w*) ([*/]) ([A-Za-z_]\w*)\s*$'),
      r'\1\2 \3= \4; return \2'),
 ]
@@ -69,8 +69,6 @@ def apply(repo, site):
         return None
     m = ms[k]
     new = line[:m.start()] + m.expand(rule[2]) + line[m.end():]
-    if 'base.getvector' in new and f.startswith('spatialmath/base/argcheck'):
-        new = new.replace('base.getvector', 'getvector')
     if new == line:
         return None
     lines[ln] = new
@@ -99,7 +97,24 @@ def run_check(repo, runs):
     return p.returncode, (first[0].strip()[:160] if first else p.stdout[-300:].replace('\n', ' | '))
 
 
+def pair_sites():
+    """An in-place site combined with a copy-dropping site at most 40 lines above it in the same
+    file (usually the same function): each alone is harmless, together they write into the
+    caller's array."""
+    ss = sites()
+    inplace = [x for x in ss if 'in place' in x[2] or 'op=' in x[2] or 'negate' in x[2]]
+    drops = [x for x in ss if x not in inplace]
+    out = []
+    for a in inplace:
+        for d in drops:
+            if d[0] == a[0] and 0 <= a[1] - d[1] <= 40:
+                out.append((d, a))
+    return out
+
+
 def main(argv):
+    if '--pairs' in argv:
+        return main_pairs(argv)
     limit = int(argv[argv.index('--limit') + 1]) if '--limit' in argv else 10 ** 9
     runs = int(argv[argv.index('--runs') + 1]) if '--runs' in argv else 1200
     only = argv[argv.index('--only') + 1] if '--only' in argv else None
@@ -138,3 +153,37 @@ def main(argv):
 
 if __name__ == '__main__':
     sys.exit(main(sys.argv[1:]))
+
+
+def main_pairs(argv):
+    runs = int(argv[argv.index('--runs') + 1]) if '--runs' in argv else 1200
+    out_path = os.path.join(ROOT, 'sweep_pairs.jsonl')
+    ps = pair_sites()
+    print('%d site pairs' % len(ps))
+    counts = {'import-or-suite-fails': 0, 'caught': 0, 'survived': 0, 'harness-error': 0}
+    with open(out_path, 'a') as out:
+        for d, a in ps:
+            tmp = tempfile.mkdtemp(prefix='sweep_', dir='/dev/shm')
+            repo = os.path.join(tmp, 'repo')
+            try:
+                shutil.copytree('/repo', repo, ignore=shutil.ignore_patterns('.git', '__pycache__',
+                                                                              'gh-pages', 'docs'))
+                c1 = apply(repo, d)
+                c2 = apply(repo, a)
+                if c1 is None or c2 is None:
+                    continue
+                if not run_suite(repo):
+                    verdict, info = 'import-or-suite-fails', ''
+                else:
+                    rc, info = run_check(repo, runs)
+                    verdict = {0: 'survived', 1: 'caught'}.get(rc, 'harness-error')
+                counts[verdict] += 1
+                out.write(json.dumps({'file': d[0], 'lines': [d[1] + 1, a[1] + 1], 'rules': [d[2], a[2]],
+                                      'old': [c1[0], c2[0]], 'verdict': verdict, 'info': info}) + '\n')
+                out.flush()
+                print('%-22s %s:%d+%d  %s | %s' % (verdict, d[0], d[1] + 1, a[1] + 1, c1[0][:50], c2[0][:40]))
+                sys.stdout.flush()
+            finally:
+                shutil.rmtree(tmp, ignore_errors=True)
+    print(counts)
+    return 0
